@@ -31,15 +31,33 @@ theorem rejected_leaves_served_unchanged (s : St) (op : Op) (h : (step s op).res
     (step s op).st.served = s.served := (step_spec s op).rejected h
 
 /-- an accepted change is stored as a whole: the stored value is the served configuration -/
-theorem accepted_is_stored (s : St) (op : Op) (h : (step s op).res = .ok) :
-    (step s op).st.stored = some (step s op).st.served := (step_spec s op).stored h
+theorem accepted_is_stored (s : St) (op : Op) (hs : op.isSetter = true) (h : (step s op).res = .ok) :
+    (step s op).st.stored = some (step s op).st.served := (step_spec s op).stored hs h
 
 /-- **accepted_is_reloaded.** After an accepted change a fresh options object reloads the served
     configuration, up to the reload normalisation (`Spec.C18.normalise`: missing default schedulers
     re-added, deprecated flags migrated). -/
-theorem accepted_is_reloaded (defaults : List String) (s : St) (op : Op) (h : (step s op).res = .ok) :
+theorem accepted_is_reloaded (defaults : List String) (s : St) (op : Op) (hs : op.isSetter = true)
+    (h : (step s op).res = .ok) :
     reload defaults (step s op).st = some (normalise defaults (step s op).st.served) := by
-  unfold reload; rw [accepted_is_stored s op h]; rfl
+  unfold reload; rw [accepted_is_stored s op hs h]; rfl
+
+/-- **reload_serves_storage.** When the serving options object itself reloads (the member is re-elected
+    after another member led and wrote), it serves afterwards, in every section, exactly what a fresh
+    object reloads from the storage – nothing of its earlier in-memory configuration survives. -/
+theorem reload_serves_storage (s : St) (c : Cfg) (h : s.stored = some c) :
+    (step s .reload).res = .ok ∧ (step s .reload).st.stored = s.stored ∧
+    reload s.defaults (step s .reload).st = some (step s .reload).st.served := by
+  obtain ⟨h1, h2, h3⟩ := (step_spec s .reload).reloadIs rfl
+  refine ⟨h1, h2, ?_⟩
+  unfold reload; rw [h2, h, h3 c h]; rfl
+
+/-- another member's write changes the storage only: what this member serves stays as it is -/
+theorem foreign_write_keeps_served (s : St) (x : Section) : (step s (.foreign x)).st.served = s.served :=
+  (step_spec s (.foreign x)).foreignKept x rfl
+
+/-- the default-scheduler list never changes -/
+theorem defaults_const (s : St) (op : Op) : (step s op).st.defaults = s.defaults := step_defaults s op
 
 /-- for a scheduling section that passed validation the normalisation only re-adds default schedulers
     (the deprecated flags are all off and stay off) -/
@@ -69,37 +87,53 @@ theorem out_of_domain_sched_rejected (s : St) (c : Sched) (mask : Nat)
 theorem registered_const (s : St) (op : Op) : (step s op).st.registered = s.registered :=
   (step_spec s op).registered
 
-/-- one call is observed as the property demands -/
-theorem C18_step (defaults : List String) (s : St) (op : Op) :
-    StepOk defaults s.registered (stepOf defaults s op) := by
-  refine ⟨rfl, ?_, ?_, ?_⟩
+theorem setter_of_kind (op : Op) (h1 : kindOf op ≠ .reload) (h2 : kindOf op ≠ .foreign) : op.isSetter = true := by
+  cases op <;> simp [kindOf, Op.isSetter] at *
+
+/-- one call is observed as the property demands (the normalisation uses the state's default schedulers) -/
+theorem C18_step (s : St) (op : Op) : StepOk s.defaults s.registered (stepOf s.defaults s op) := by
+  refine ⟨rfl, ?_, ?_, ?_, ?_, ?_⟩
   · intro hok
     have : (step s op).res ≠ .ok := by
       intro h; simp [stepOf, h] at hok
     exact rejected_leaves_served_unchanged s op this
-  · intro hok
+  · intro h1 h2 hok
     have : (step s op).res = .ok := of_decide_eq_true hok
-    exact accepted_is_reloaded defaults s op this
+    exact accepted_is_reloaded s.defaults s op (setter_of_kind op h1 h2) this
+  · intro hk _
+    cases op <;> simp [stepOf, kindOf] at hk
+    show reload s.defaults (step s .reload).st = none ∨
+      reload s.defaults (step s .reload).st = some (step s .reload).st.served
+    cases hst : s.stored with
+    | none =>
+      left
+      obtain ⟨_, h2, _⟩ := (step_spec s .reload).reloadIs rfl
+      unfold reload; rw [h2, hst]; rfl
+    | some c => right; exact (reload_serves_storage s c hst).2.2
+  · intro hk
+    cases op <;> simp [stepOf, kindOf] at hk
+    next x => exact foreign_write_keeps_served s x
   · intro hok
     have : (step s op).res = .ok := of_decide_eq_true hok
     exact accepted_in_domain s op this
 
-/-- **C18.** Every history of the model is observed as the property demands. -/
-theorem C18_holds (defaults : List String) (s : St) (ops : List Op) :
-    Holds defaults s.registered (steps defaults s ops) := by
+/-- **C18.** Every history of the model (setter calls, other members' writes and reloads of the serving
+    object, in any order) is observed as the property demands. -/
+theorem C18_holds (s : St) (ops : List Op) : Holds s.defaults s.registered (steps s.defaults s ops) := by
   induction ops generalizing s with
   | nil => intro x hx; simp [steps] at hx
   | cons op ops ih =>
     intro x hx
     simp only [steps, List.mem_cons] at hx
     rcases hx with rfl | hx
-    · exact C18_step defaults s op
-    · have := ih (step s op).st x hx
-      rw [registered_const] at this
+    · exact C18_step s op
+    · have := ih (step s op).st x (by rw [defaults_const]; exact hx)
+      rw [registered_const, defaults_const] at this
       exact this
 
-/-- the three domains hold for the served configuration throughout every history that starts inside them -/
-theorem domain_invariant (s : St) (ops : List Op)
+/-- the three domains hold for the served configuration throughout every history of setter calls that
+    starts inside them (a reload serves whatever another member stored) -/
+theorem domain_invariant (s : St) (ops : List Op) (hs : ops.all Op.isSetter = true)
     (h : schedDomain s.registered s.served.sched = true ∧ replDomain s.served.repl = true ∧
       pdDomain s.served.pd = true) :
     schedDomain s.registered (run s ops).served.sched = true ∧ replDomain (run s ops).served.repl = true ∧
@@ -107,8 +141,9 @@ theorem domain_invariant (s : St) (ops : List Op)
   induction ops generalizing s with
   | nil => exact h
   | cons op ops ih =>
+    simp only [List.all_cons, Bool.and_eq_true] at hs
     simp only [run, List.foldl_cons]
-    have := ih (step s op).st (by rw [registered_const]; exact (step_spec s op).domainKept h)
+    have := ih (step s op).st hs.2 (by rw [registered_const]; exact (step_spec s op).domainKept hs.1 h)
     rw [registered_const] at this
     exact this
 
@@ -128,7 +163,8 @@ def demoCfg : Cfg :=
 
 def demoInit : St :=
   { served := demoCfg, stored := some demoCfg, rule := some ⟨3, []⟩,
-    registered := ["balance-leader", "balance-region", "hot-region", "label"] }
+    registered := ["balance-leader", "balance-region", "hot-region", "label"],
+    defaults := ["balance-region", "balance-leader", "hot-region"] }
 
 def demoDefaults : List String := ["balance-region", "balance-leader", "hot-region"]
 
@@ -172,10 +208,11 @@ theorem default_schedulers_registered :
     PdModel.Generated.Config.defaultSchedulers.all
       (fun d => PdModel.Generated.Config.registeredSchedulers.contains d) = true := by decide
 
-theorem C18_holds_extracted (s : St) (ops : List Op) :
+theorem C18_holds_extracted (s : St) (ops : List Op)
+    (h : s.defaults = PdModel.Generated.Config.defaultSchedulers) :
     Holds PdModel.Generated.Config.defaultSchedulers s.registered
-      (steps PdModel.Generated.Config.defaultSchedulers s ops) :=
-  C18_holds _ s ops
+      (steps PdModel.Generated.Config.defaultSchedulers s ops) := by
+  rw [← h]; exact C18_holds s ops
 
 /-- structure obligations, re-checked against the facts regenerated from the Go source: every setter
     validates before it swaps the served section in, swaps before it persists, and `Reload` adjusts after
